@@ -32,15 +32,19 @@ DESIGN_REF = "DESIGN.md §5 C16"
 MODULES = ["TypelibModel.Props.C16"]
 TABLES = False
 RULE = ("operation sequences over the closed key family (int, str, a synthesised dataclass Foo) x {itself, NewType, TypeAliasType, "
-        "string-valued TypeAliasType, Final[.], refs.forwardref(.)}: (a) ALL admissible sequences up to length L over the 6 keys of "
-        "one base type, for each base (18^n sequences of length n; quick L=4, thorough L=6); (b) ALL admissible sequences up to "
-        "length M over all 18 keys (54^n; quick M=3, thorough M=4); (c) random admissible sequences of length M+1..40 over all 18 "
-        "keys. Admissible = insertions use fresh keys, `in` only for stored keys; the op at position p stores value p+1 / passes a "
-        "unique default object. Enumerated sequences are nodes of a tree, hence pairwise distinct; (b) counts only sequences "
-        "touching >= 2 base types as distinct (the others are in (a)); random sequences are longer than every enumerated one and "
-        "deduplicated by hash. A sequence is non-trivial when its last operation is a lookup ([] or get) that the reference model "
-        "answers through a fallback (unwrapped form or forward reference) rather than by the key itself; for random sequences: "
-        "when any of its lookups is. Each sequence runs on a fresh real TypeContext (replayed from scratch, no state copying).")
+        "string-valued TypeAliasType, Final[.], refs.forwardref(.)}: (a) ALL admissible sequences up to length L over the 6 family "
+        "keys of one base type, for each base (18^n sequences of length n; quick L=4, thorough L=6); (a') ALL admissible sequences "
+        "up to length X over those 6 keys plus the 3 forward references naming the NewType / alias / string alias (27^n; quick X=3, "
+        "thorough X=5) - without these the order 'unwrapped form before forward reference' is unobservable; (b) ALL admissible "
+        "sequences up to length M over all 18 family keys (54^n; quick M=3, thorough M=4); (c) random admissible sequences of "
+        "length M+1..40 over the family, the extended keys and ForwardRef('Final', module='typing'). Admissible = insertions use "
+        "fresh keys, `in` only for stored keys; the op at position p stores value p+1 / passes a unique default object (random "
+        "sequences also store repeated values). Enumerated sequences are nodes of a tree, hence pairwise distinct; (a') counts "
+        "as distinct only sequences using an extra key, (b) only sequences touching >= 2 base types (the others are in (a)); random "
+        "sequences are deduplicated by hash. A sequence is non-trivial when its last operation is a lookup ([] or get) that "
+        "the reference model answers through a fallback (unwrapped form or forward reference) rather than by the key itself; for "
+        "random sequences: when any of its lookups is. Each sequence runs on a fresh real TypeContext (replayed from scratch, no "
+        "state copying).")
 ASSUMPTIONS = [
     "values are opaque to TypeContext (it never inspects them): distinct integers per position are the general case",
     "the dict contents are observed only through [], get and `in` on stored keys; the alias entries memoised by __missing__ are "
@@ -73,6 +77,7 @@ BASES = ("int", "str", "Foo")
 CAP = {"int": "Int", "str": "Str", "Foo": "Foo"}
 SUFFIX = {"nt": "NT", "al": "Al", "sa": "SA"}
 HOME = {"int": "builtins", "str": "builtins", "Foo": MODNAME}
+ARGBASE = {**{b: b for b in BASES}, **{CAP[b] + sfx: b for b in BASES for sfx in SUFFIX.values()}}
 
 
 class Dflt(int):
@@ -99,6 +104,7 @@ class Family:
         self.mod = mod
         self.by_json = {}          # json key (tuple) -> object
         self.per_base = {}
+        self.extended = {}
         for b in BASES:
             T = {"int": int, "str": str, "Foo": mod.Foo}[b]
             ks = [(("base", b), T),
@@ -109,7 +115,16 @@ class Family:
                   (("ref", b, HOME[b]), refs.forwardref(T))]
             self.per_base[b] = [k for k, _ in ks]
             self.by_json.update(ks)
+            # beyond the family: the forward references *naming* the three named wrappers (refs.forwardref(IntNT), …).
+            # Only with them can "unwrapped form before forward reference" be observed at all.
+            xs = [(("ref", CAP[b] + SUFFIX[w], MODNAME), refs.forwardref(getattr(mod, CAP[b] + SUFFIX[w])))
+                  for w in ("nt", "al", "sa")]
+            self.extended[b] = self.per_base[b] + [k for k, _ in xs]
+            self.by_json.update(xs)
         self.family = [k for b in BASES for k in self.per_base[b]]
+        # every Final[...] is named by the same reference ForwardRef('Final', module='typing')
+        self.by_json[("ref", "Final", "typing")] = refs.forwardref(typing.Final[int])
+        self.pool = [k for b in BASES for k in self.extended[b]] + [("ref", "Final", "typing")]
 
     def obj(self, jk):
         jk = tuple(jk)
@@ -260,8 +275,8 @@ def _enum_real(job):
     objs = [F.obj(k) for k in jkeys]
     nk = len(jkeys)
     base_bit = {b: 1 << i for i, b in enumerate(BASES)}
-    bits = [base_bit[k[1]] if k[0] != "ref" else base_bit[k[1]] for k in jkeys]
-    dedupe_single_base = job.get("count_multi_base_only", False)
+    bits = [base_bit.get(ARGBASE.get(k[1]), 0) | (8 if (k[0] == "ref" and k[1] not in BASES) else 0) for k in jkeys]
+    count_rule = job.get("count", "all")      # which nodes are not already nodes of another tree
     real_out, orc_out = [], []
     stat = {"n": 0, "nt": 0}
 
@@ -325,7 +340,8 @@ def _enum_real(job):
                 orc_out.append(_ok_code(val) if how else ("K" if kind == 1 else "D"))
             m2 = mask | bits[ki]
             stat["n"] += 1
-            if nontrivial and not (dedupe_single_base and m2 in (1, 2, 4)):
+            if nontrivial and (count_rule == "all" or (count_rule == "multi_base" and m2 not in (1, 2, 4))
+                               or (count_rule == "uses_extra" and m2 & 8)):
                 stat["nt"] += 1
             if remaining > 1:
                 visit(seq + [(kind, ki, v)], S2, pos + 1, remaining - 1, m2)
@@ -466,13 +482,17 @@ def check_key_laws(res):
 def random_ops(rng, F, min_len, max_len):
     n = rng.randint(min_len, max_len)
     mode = rng.random()
-    if mode < 0.45:
+    if mode < 0.25:
         pool = list(F.per_base[rng.choice(BASES)])
+    elif mode < 0.5:
+        pool = list(F.extended[rng.choice(BASES)])
     elif mode < 0.7:
         bs = rng.sample(BASES, 2)
-        pool = F.per_base[bs[0]] + F.per_base[bs[1]]
-    else:
+        pool = F.extended[bs[0]] + F.extended[bs[1]]
+    elif mode < 0.85:
         pool = list(F.family)
+    else:
+        pool = list(F.pool)
     p_ins = rng.choice((0.15, 0.3, 0.5))
     small_values = rng.random() < 0.3          # repeated values: entries with equal values under different keys
     ops, stored = [], []
@@ -533,10 +553,11 @@ def explore(ctx):
     res.rule = RULE
     F = family()
     quick = ctx.tier == "quick"
-    L = 4 if quick else 6          # per-base exhaustive length
-    M = 3 if quick else 4          # all-keys exhaustive length
+    L = 4 if quick else 6          # exhaustive length, the 6 family keys of one base type
+    X = 3 if quick else 5          # exhaustive length, the 9 keys of one base type incl. the references naming its wrappers
+    M = 3 if quick else 4          # exhaustive length, all 18 family keys
     if ctx.scale > 1 and quick:
-        L, M = 5, 3
+        L, X, M = 5, 4, 3
 
     # 0. the hypotheses of the theorem, on the real key functions
     check_key_laws(res)
@@ -546,7 +567,9 @@ def explore(ctx):
     for b in BASES:
         for j in _enum_jobs(F.per_base[b], L, 2, label=f"base:{b}"):
             jobs.append(j)
-    jobs += _enum_jobs(F.family, M, 2 if M >= 4 else 1, label="all", count_multi_base_only=True)
+        for j in _enum_jobs(F.extended[b], X, 2 if X >= 4 else 1, label=f"extended:{b}", count="uses_extra"):
+            jobs.append(j)
+    jobs += _enum_jobs(F.family, M, 2 if M >= 4 else 1, label="all", count="multi_base")
     real = iso.map_isolated(_enum_real, jobs, timeout=900.0)
     chunks = [jobs[i::4] for i in range(4)]
     from concurrent.futures import ThreadPoolExecutor
@@ -559,6 +582,7 @@ def explore(ctx):
             model[j] = m
     enumerated = nontrivial = 0
     per_label = {}
+    mismatching = []
     for job, r, m in zip(jobs, real, model):
         if not isinstance(r, dict) or "crash" in r:
             raise RuntimeError(f"harness: enumeration child failed: {r}")
@@ -571,19 +595,24 @@ def explore(ctx):
             raise RuntimeError(f"harness: enumeration trees differ in size ({r['n']} vs {m['n']}) for {job['prefix']}")
         spec = m["spec"] if m.get("spec") is not None else m["concrete"]
         for what, a, b_ in (("corr", r["real"], m["concrete"]), ("oracle", r["real"], r["oracle"]), ("leanspec", r["oracle"], spec)):
-            if a == b_:
-                continue
-            i = _first_diff(a, b_)
-            ops = _node_at(job, i)
-            full_real = real_run(ops)
-            full_model = lean.drive([{"op": "ctx.run", "ops": ops}])[0]
+            if a != b_:
+                res.count(f"enum:{what}:mismatching-nodes", sum(1 for x, y in zip(a, b_) if x != y))
+                mismatching.append((job, what, _first_diff(a, b_)))
+    # reproduce the first few mismatches as fully observed sequences (shortest first)
+    repro = []
+    for job, what, i in mismatching:
+        repro.append((what, job, i, _node_at(job, i)))
+    repro.sort(key=lambda t: len(t[3]))
+    repro = repro[:8]
+    if repro:
+        fm = lean.drive([{"op": "ctx.run", "ops": ops} for _, _, _, ops in repro])
+        for (what, job, i, ops), m in zip(repro, fm):
             before = len(res.disagreements) + len(res.failures)
-            _compare_full(res, ops, full_real, full_model, "enum-repro")
+            _compare_full(res, ops, real_run(ops), m, "enum-repro")
             if len(res.disagreements) + len(res.failures) == before:
                 # the streams differ but the replay agrees: the walkers are out of step (harness defect)
                 raise RuntimeError(f"harness: enumeration streams differ ({what}) at node {i} of {job['label']} "
                                    f"prefix={job['prefix']} but the sequence replays fine: {ops}")
-            break
     res.evaluations += enumerated
     res.count("enum:sequences", enumerated)
     res.count("enum:jobs", len(jobs))
@@ -620,7 +649,8 @@ def explore(ctx):
         _compare_full(res, ops, r, m, "random")
     res.extra["distinct_nontrivial"] = nontrivial + (len(res.keys) - keys_before)
     res.extra["enumerated_sequences"] = enumerated
-    res.extra["exhaustive_up_to_length"] = {"per_base_type(6 keys)": L, "all_18_keys": M}
+    res.extra["exhaustive_up_to_length"] = {"per_base_type(6 family keys)": L, "per_base_type(9 keys incl. references naming the wrappers)": X,
+                                            "all_18_family_keys": M}
     res.extra["random_sequences"] = len(seqs)
     res.extra["exhaustive"] = False
     return res
